@@ -255,6 +255,74 @@ def check_identifiers(ctx, n):
                         ctx.violation(f"normalize_identifiers:strategy-override:{st}", {**case, "got": r.name, "expected": exp_name}, case)
 
 
+CASE_WORDS = ["Orders", "Customers", "Qty", "Name", "ID", "userId", "Total_Amount", "a", "B"]
+CASE_DIALECTS = ["bigquery", "snowflake", "duckdb", "postgres", "mysql", "spark", "tsql", "trino", "clickhouse", ""]
+
+
+def check_case_family(ctx, i):
+    """mixed-case schemas in which a spelling is used both as a table name and as a column name (of the same
+    or of another table); expected star expansion = the reference model applied to the schema's columns, in order"""
+    import sqlglot
+    from sqlglot.errors import OptimizeError, SqlglotError
+    from sqlglot.optimizer.qualify import qualify
+
+    rng = ctx.case_rng(7_000_000 + i)
+    words = rng.sample(CASE_WORDS, 5)
+    t1, t2 = words[0], words[1]
+    cols1 = [t1 if rng.random() < 0.5 else words[2], words[3]]
+    cols2 = [t2 if rng.random() < 0.4 else words[4], t1 if rng.random() < 0.4 else words[2] + "2"]
+    if len(set(c.lower() for c in cols1)) < 2 or len(set(c.lower() for c in cols2)) < 2:
+        return
+    d = rng.choice(CASE_DIALECTS)
+    dn = d or "base"
+    # BigQuery decides case-sensitivity of a table name by whether it is qualified (documented heuristic):
+    # unqualified mixed-case table names are outside what it promises
+    depth2 = rng.random() < 0.6 or d == "bigquery"
+    tables = {t1: {c: "INT" for c in cols1}, t2: {c: "INT" for c in cols2}}
+    if rng.random() < 0.5:
+        tables = dict(reversed(list(tables.items())))   # registration order matters for caches
+    schema = {"ds": tables} if depth2 else tables
+    pre = "ds." if depth2 else ""
+    queries = [
+        (f"SELECT * FROM {pre}{t1}", cols1),
+        (f"SELECT * FROM {pre}{t2}", cols2),
+        (f"SELECT x.* FROM {pre}{t1} AS x", cols1),
+        (f"SELECT {cols1[0]}, {cols1[1]} FROM {pre}{t1}", cols1),
+        (f"SELECT x.*, y.* FROM {pre}{t1} AS x CROSS JOIN {pre}{t2} AS y", cols1 + cols2),
+    ]
+    rng.shuffle(queries)
+    for sql, cols in queries[:3]:
+        case = {"sql": sql, "dialect": dn, "schema": schema}
+        try:
+            tree = sqlglot.parse_one(sql, read=d)
+            r1 = qualify(tree, schema=schema, dialect=d)
+        except OptimizeError as e:
+            # the schema is well-formed and every name exists: failing to resolve is a wrong answer here
+            if NORM[dn]["strategy"] != "CASE_SENSITIVE" or True:
+                ctx.violation(f"qualify:case-family:unexpected-OptimizeError:{dn}", {"sql": sql, "dialect": dn, "error": str(e)[:160], "schema": schema}, case)
+            continue
+        except SqlglotError:
+            continue
+        except Exception as e:
+            ctx.violation(f"internal-exception:qualify:{type(e).__name__}", {"sql": sql, "dialect": dn, "error": repr(e)[:200]}, case)
+            continue
+        ctx.count("evaluations")
+        ctx.count("case_family_queries")
+        ctx.nt([sql, dn, repr(schema)])
+        expected = [model_normalize(c, False, dn) for c in cols]
+        got = list(r1.named_selects)
+        if got != expected:
+            ctx.violation(f"qualify:case-family:output-names:{dn}", {"sql": sql, "dialect": dn, "got": got, "expected": expected, "schema": schema}, case)
+            continue
+        try:
+            s1 = r1.sql(dialect=d)
+            s2 = qualify(r1.copy(), schema=schema, dialect=d).sql(dialect=d)
+            if s1 != s2:
+                ctx.violation(f"qualify:case-family:not-idempotent:{dn}", {"sql": sql, "first": s1, "second": s2}, case)
+        except SqlglotError as e:
+            ctx.violation(f"qualify:case-family:requalification-raises:{dn}", {"sql": sql, "dialect": dn, "error": str(e)[:160], "schema": schema}, case)
+
+
 PROBES = [
     ("probe/star-expands-cte-columns-before-table-columns", "WITH cte1 AS (SELECT t1.a1 AS p3 FROM t1) SELECT * FROM t2 AS x6 JOIN cte1 AS c7 ON x6.a2 = c7.p3",
      ["k", "a2", "b2", "p3"]),
@@ -285,6 +353,8 @@ def worker(ctx):
         tables, _, q = gen_case(rng)
         for d in rng.sample(QDIALECTS, 2):
             check_query(ctx, q, tables, d, rng.choice([1, 1, 2, 3]), i, isolate=rng.random() < 0.3)
+    for i in ctx.mine(spec["idents"] * 3):
+        check_case_family(ctx, i)
     check_identifiers(ctx, spec["idents"])
     if ctx.shard == 0:
         run_probes(ctx)
